@@ -58,6 +58,8 @@ LEG = {
  'zzC12HeaderName': "validateHeaderName against RFC 9110's token grammar stated independently, for every name of up to 2 (thorough 3) bytes.",
  'zzC02ErrorAnswer': "The answer to a call that ends in a JSON-RPC error, on that call's SSE exchange, for six error codes, three protocol eras, with or without a related notification sent first: it reaches the client readable — as the whole body with the mandated status only while nothing has been written to the response, as one more event afterwards (defect D14, fixed).",
  'zzC12Version': "servePOST also with the Mcp-Method mirror right, wrong or missing (refused with 400 before anything is handed on, from 2026-07-28 on), and with the initialize call of the legacy handshake: the session id travels on its answer and on no other.",
+ 'zzC09Delay': "calculateReconnectDelay for every attempt number up to 130 (thorough 1100): the jitter source is never asked for a non-positive bound (it panics), the delay is 0 for the first attempt and within (0, 2 x cap] afterwards (defect D16, fixed: conversion overflow from attempt 58 on).",
+ 'zzC03StatelessNotification': "A notification-only POST to a stateless endpoint through the real serveStateless: acknowledged 202, the ephemeral session closed when the request completes — and nothing orders the session's reader before that Close: known finding D15 (reported as KNOWN-FINDING, not repaired).",
  'zzC14Decision': "The HTTP method (any of nine, symbolic) and ambient headers (CORS preflight markers, forwarding headers, cookies; optional map entries) are arbitrary and must not influence the decision; expirations up to ~35 000 years ahead (time.Duration saturation).",
 }
 ADD_ASSUME = {
